@@ -417,6 +417,17 @@ struct Run {
         else {
           SparseCol s = rand_sparse();
           if (r.chance(1, 5)) s = sparse_of(D.col[t]);  // same content as the target
+          if constexpr (COMP) {
+            // make the target identical to a column of another class (exercises the merge of two classes)
+            unsigned j;
+            if (kind != 2 && r.chance(1, 3) && pick_col(j, 2, (long)t)) {
+              DCol diff(D.R, 0);
+              for (int q = 0; q < D.R; ++q)
+                diff[q] = D.norm((long long)D.col[j][q] - (long long)(kind == 1 ? cv : 1u) * D.col[t][q]);
+              s = sparse_of(diff);
+              c.count("op.make_identical_to_other_class");
+            }
+          }
           range = make_range(s); src = D.dense_of(s); srckind = "range_vector";
           c.log("  range " + show_sparse(s));
         }
@@ -589,7 +600,7 @@ void run_case(vh::Case& c) {
   static const unsigned primes[4] = {3, 5, 7, 13};
   unsigned p = O::is_z2 ? 2u : primes[r.below(4)];
   // shapes are deliberately non-square: up to 16 rows for at most 8 columns
-  int R = r.chance(1, 4) ? 1 + (int)r.below(4) : 1 + (int)r.below(16);
+  int R = r.chance(O::has_column_compression ? 2u : 1u, 4u) ? 1 + (int)r.below(4) : 1 + (int)r.below(16);
   Run<O> run(c, p, R);
   c.log(std::string("ct=") + run.ct + " p=" + vh::str(p) + " R=" + vh::str(R));
   if (!run.construct()) return;
